@@ -80,8 +80,16 @@ let split_arrow (toks : string list) : string list * string list =
 let bytes_list_of_tok (s : string) : coq_N list list =
   if s = "-" then [] else List.map (fun x -> if x = "" || x = "_" then [] else bytes_of_hex x) (String.split_on_char ',' s)
 
-(* chunk spec: "-" whole | "r<k>" repeat | "a,b,c" *)
+(* chunk spec: "-" whole | "r<k>" repeat | "a,b,c"; an optional prefix "<dress>/" says which concrete Go reader
+   type stood between the chunked transport and the library (B<size> = *bufio.Reader, BR = *bytes.Reader, BB =
+   *bytes.Buffer ...): the models do not see it - what they compute is proved independent of the chunking - so the
+   prefix is dropped here *)
+let undress (spec : string) : string =
+  match String.index_opt spec '/' with
+  | Some i -> String.sub spec (i + 1) (String.length spec - i - 1)
+  | None -> spec
 let sizes_of_spec (spec : string) (n : int) : coq_N list =
+  let spec = undress spec in
   if spec = "-" then []
   else if spec.[0] = 'r' then begin
     let k = max 1 (int_of_string (String.sub spec 1 (String.length spec - 1))) in
@@ -96,6 +104,7 @@ let sizes_of_spec (spec : string) (n : int) : coq_N list =
    the end of the stream (one empty chunk each); false for a transport that returns its last bytes TOGETHER with
    the final error ("eofdata"/"faildata"): nothing is read after that *)
 let chunks_of_spec ?(trailing = true) (spec : string) (data : 'a list) : 'a list list option =
+  let spec = undress spec in
   if spec = "-" || spec.[0] = 'r' || not (List.mem "z" (String.split_on_char ',' spec)) then None
   else begin
     let rec take k l = if k <= 0 then [] else match l with [] -> [] | x :: r -> x :: take (k-1) r in
